@@ -25,7 +25,7 @@ class SimAbort(BaseException):
 
 class SimThread(object):
   __slots__ = ('tid', 'name', 'target', 'gate', 'state', 'blocked_on', 'npoints', 'hot_events', 'nhot', 'after', 'ident',
-               'exc', 'result', 'real', 'events', 'atomic', 'held', 'data')
+               'exc', 'result', 'real', 'events', 'atomic', 'held', 'data', 'timed_wait', 'timed_out')
 
   def __init__(self, tid, name, target):
     self.tid = tid
@@ -33,6 +33,8 @@ class SimThread(object):
     self.target = target
     self.gate = _thread.allocate_lock()
     self.gate.acquire()
+    self.timed_wait = False
+    self.timed_out = False
     self.state = NEW
     self.blocked_on = None
     self.npoints = 0
@@ -365,6 +367,20 @@ class Sim(object):
       return None
     runnable = [t for t in self.threads if t.state is RUNNABLE]
     if not runnable:
+      # discrete-event time: with nothing runnable the clock jumps to the earliest pending timeout
+      timed = [t for t in self.threads if t.state is BLOCKED and getattr(t, 'timed_wait', False)]
+      if timed:
+        t = timed[0]
+        t.state = RUNNABLE
+        t.timed_wait = False
+        t.timed_out = True
+        if t in t.blocked_on.sim_waiters:
+          t.blocked_on.sim_waiters.remove(t)
+        t.blocked_on = None
+        self._ev(t.tid, 'O')
+        self.probe('timed_wait_expired')
+        runnable = [t]
+    if not runnable:
       blocked = [t for t in self.threads if t.state is BLOCKED]
       if blocked:
         self.outcome = {
@@ -484,6 +500,42 @@ class Sim(object):
       if self.outcome is not None:
         raise SimAbort()
       # woken by a release: state already RUNNABLE; retry
+
+  # -- events (threading.Event objects created by repository code) -------------
+  def event_wait(self, ev, me, timeout=None):
+    if me.atomic or self.in_handler:
+      return ev.is_set()
+    self.point('w', ev.index, 0, hot=True)
+    while True:
+      if ev.is_set():
+        return True
+      me.state = BLOCKED
+      me.blocked_on = ev
+      me.timed_wait = timeout is not None
+      me.timed_out = False
+      ev.sim_waiters.append(me)
+      self._ev(me.tid, 'W', ev.index)
+      if self._leave(me) is None:
+        me.gate.acquire()
+        raise SimAbort()
+      me.gate.acquire()
+      if self.outcome is not None:
+        raise SimAbort()
+      if me.timed_out:
+        # simulated time passed: nothing else could run
+        me.timed_out = False
+        return ev.is_set()
+
+  def event_set(self, ev, me):
+    for w in ev.sim_waiters:
+      w.state = RUNNABLE
+      w.blocked_on = None
+      w.timed_wait = False
+    ev.sim_waiters = []
+    if me is not None:
+      self._ev(me.tid, 'V', ev.index)
+      if not (me.atomic or self.in_handler):
+        self.point('v', ev.index, 0, hot=True)
 
   def lock_release(self, lock, me):
     if lock.owner is not me:
